@@ -21,7 +21,7 @@ sys.path.insert(0, HERE)
 
 
 def sh(cmd, cwd=None, timeout=600):
-    r = subprocess.run(cmd, shell=True, cwd=cwd, stdout=subprocess.PIPE, stderr=subprocess.STDOUT, text=True, timeout=timeout)
+    r = subprocess.run(cmd, shell=True, cwd=cwd, stdout=subprocess.PIPE, stderr=subprocess.STDOUT, text=True, errors='replace', timeout=timeout)
     return r.returncode, r.stdout
 
 
